@@ -331,6 +331,8 @@ fn flush_output_buffer(
 ) {
     let captured = std::mem::take(&mut *buf.lock().expect("output buffer poisoned"));
     if !captured.is_empty() {
+        #[cfg(wilfred_garden_verif)]
+        crate::verif::point("flush.taken", std::str::from_utf8(key).unwrap_or(""));
         let mut msg = base_msg.clone();
         msg.insert(key.to_vec(), bstr(captured));
         let _ = response_tx.send(Value::Dict(msg));
@@ -846,6 +848,21 @@ fn sigint_watchdog(
     }
 }
 
+/// The `id` of a session-bound request, for the verification event log.
+#[cfg(wilfred_garden_verif)]
+fn verif_request_id(req: &SessionRequest) -> String {
+    let base_msg = match req {
+        SessionRequest::Eval { base_msg, .. }
+        | SessionRequest::LoadFile { base_msg, .. }
+        | SessionRequest::Completions { base_msg, .. }
+        | SessionRequest::Lookup { base_msg, .. } => base_msg,
+    };
+    dict_get(base_msg, "id")
+        .and_then(as_str)
+        .unwrap_or("")
+        .to_owned()
+}
+
 /// Worker thread that owns the `Env` for a session and handles each
 /// session-bound op sequentially.
 fn session_worker(
@@ -860,7 +877,7 @@ fn session_worker(
 
     while let Ok(req) = request_rx.recv() {
         #[cfg(wilfred_garden_verif)]
-        crate::verif::point("dequeued", "");
+        crate::verif::point("dequeued", &verif_request_id(&req));
         // Clear any stray interrupt set while the session was idle.
         interrupted.store(false, Ordering::SeqCst);
         #[cfg(wilfred_garden_verif)]
